@@ -375,6 +375,178 @@ theorem router_multi_refused_none_noop (s : St) (who a1 a2 : Nat) (payload : Lis
     step s (.routerLoanMulti who a1 a2 payload) = none ∧ step s (.routerLoanNone who payload) = some s :=
   ⟨rfl, rfl⟩
 
+/-! ### coins ATTACHED to the flash-loan messages (`Op.attach`)
+
+`failed_changes_nothing` / `all_or_nothing` above quantify over all operations, the ones carrying stray
+coins included: a failed message returns the attached coins with everything else. -/
+
+/-- Coins of the asset's denom attached to the vault's own `FlashLoan` are in the vault BEFORE
+    `old_balance` is read: a donation. The loan then runs from the state after a plain transfer of `n`
+    to the vault and has to leave the vault with at least `balance + n + protocol fee + flash-loan fee`:
+    the attached coins cannot be used to pay the fees, and they stay in the vault. -/
+theorem loan_attached_is_donation {s s' : St} {who n amount : Nat} {cb : List Act} (hI : Inv s)
+    (h : step s (.attach who 0 n (.loan amount cb)) = some s') :
+    ∃ s1, payIn s who n = some s1 ∧ loanFrom s1 amount cb = some s' ∧ s1.bal = s.bal + n ∧
+      s.bal + n + fee s.fees.prot amount + fee s.fees.flash amount ≤ s'.bal := by
+  obtain ⟨dst, s1, hr, _, ha, hs⟩ := attach_parts h
+  have hd : dst = 0 := by simp only [Op.recv, Option.some.injEq] at hr; omega
+  subst hd
+  obtain ⟨hp, hw, _, _⟩ := arrive_own_vault ha
+  have A := arrive_spec hI ha
+  simp only [step] at hs
+  have L := loan_spec A.inv hs
+  obtain ⟨hs1, _⟩ := payIn_spec hI.abLen (by omega) hp
+  have hb : s1.bal = s.bal + n := by rw [hs1]
+  have hf := A.fees
+  have := L.balGe
+  rw [hf, hb] at this
+  exact ⟨s1, hp, hs, hb, this⟩
+
+/-- Coins attached to the ROUTER's `FlashLoan` (`flash_loan.rs` passes `funds: vec![]` on to the vault)
+    are the router's for the duration of the transaction: the loan runs from the state `s1` after a
+    plain transfer of the coins to the router (asset denom) resp. after the router's balance of the
+    unrelated denom grew — the vault's balance and every ledger are those of `s` when it records
+    `old_balance`, so all `router_…` theorems above apply from `s1` with the fees and balance of `s`. -/
+theorem router_attached_is_routers {s s' : St} {who sel n i amount : Nat} {payload : List RAct}
+    (hI : Inv s) (h : step s (.attach who sel n (.routerLoan i amount payload)) = some s') :
+    ∃ s1, arrive s who sel n 1 = some s1 ∧ routerLoanFrom s1 i amount payload = some s' ∧ i < 4 ∧
+      Inv s1 ∧ s1.bal = s.bal ∧ s1.fees = s.fees ∧ s1.pend = s.pend ∧ getN s'.ab 5 = 0 := by
+  obtain ⟨dst, s1, hr, _, ha, hs⟩ := attach_parts h
+  have hd : dst = 1 := by simp only [Op.recv, Option.some.injEq] at hr; omega
+  subst hd
+  have A := arrive_spec hI ha
+  simp only [step] at hs
+  split at hs
+  · cases hs
+  rename_i hi
+  have hb : s1.bal = s.bal := by
+    by_cases hsel : sel = 0
+    · subst hsel
+      obtain ⟨hm, _⟩ := arrive_own_router ha
+      exact (move_inv hI (by omega) (by omega) hm).2.2.2.2
+    · obtain ⟨rfl, _⟩ := arrive_junk hsel ha
+      rfl
+  exact ⟨s1, ha, hs, by omega, A.inv, hb, A.fees, A.pend, router_keeps_nothing A.inv (by omega) hs⟩
+
+/-- the state in which a router loan with coins of the asset's denom attached starts -/
+private theorem attached_router_start {s s' : St} {i n amount : Nat} {payload : List RAct} (hI : Inv s)
+    (h : step s (.attach i 0 n (.routerLoan i amount payload)) = some s') :
+    ∃ s1, move s i 5 n = some s1 ∧ routerLoanFrom s1 i amount payload = some s' ∧ i < 4 ∧ Inv s1 ∧
+      s1.bal = s.bal ∧ s1.fees = s.fees ∧ getN s1.ab 5 = getN s.ab 5 + n ∧
+      getN s1.ab i + n = getN s.ab i ∧ (∀ j, j ≠ 5 → j ≠ i → getN s1.ab j = getN s.ab j) := by
+  obtain ⟨s1, ha, hs, hi, hI1, hb, hf, _, _⟩ := router_attached_is_routers hI h
+  obtain ⟨hm, _, _, _⟩ := arrive_own_router ha
+  obtain ⟨_, _, _, hle, hab⟩ := move_spec hI.abLen (by omega) (by omega) hm
+  have hlen : (setN s.ab i (getN s.ab i - n)).length = 6 := by rw [setN_length]; exact hI.abLen
+  refine ⟨s1, hm, hs, hi, hI1, hb, hf, ?_, ?_, ?_⟩
+  · rw [hab, getN_setN_same _ _ _ (by rw [hlen]; omega), getN_setN_ne _ _ _ _ (by omega)]
+  · rw [hab, getN_setN_ne _ _ _ _ (by omega), getN_setN_same _ _ _ (by rw [hI.abLen]; omega)]
+    omega
+  · intro j h5 hji
+    rw [hab, getN_setN_ne _ _ _ _ (by omega), getN_setN_ne _ _ _ _ (by omega)]
+
+/-- **Coins of the loaned asset's denom attached to the router's `FlashLoan` are never left in the
+    router nor in the vault**: with `s2` the state when the payload has finished, the router held the
+    quote, the vault's balance is what the payload left it plus exactly the quote minus the burn fee,
+    the initiator receives the router's WHOLE remaining balance (the attached coins are part of it),
+    and the router ends with nothing. -/
+theorem router_attached_coins_return {s s' : St} {i n amount : Nat} {payload : List RAct} (hI : Inv s)
+    (h : step s (.attach i 0 n (.routerLoan i amount payload)) = some s') :
+    ∃ s1 s2 : St, move s i 5 n = some s1 ∧ routerLoanFrom s1 i amount payload = some s' ∧
+      s1.bal = s.bal ∧ getN s1.ab 5 = getN s.ab 5 + n ∧ getN s1.ab i + n = getN s.ab i ∧
+      payback s amount ≤ getN s2.ab 5 ∧
+      s'.bal + fee s.fees.burn amount = s2.bal + payback s amount ∧
+      getN s'.ab i = getN s2.ab i + (getN s2.ab 5 - payback s amount) ∧
+      getN s'.ab 5 = 0 := by
+  obtain ⟨s1, hm, hs, hi, hI1, hb, hf, h5, h_i, _⟩ := attached_router_start hI h
+  obtain ⟨s2, s3, _, _, _, hge, _, hbal, hini, h0, _⟩ := router_pays_quote_forwards_rest hI1 hi hs
+  have hpb : payback s1 amount = payback s amount := by unfold payback; rw [hf]
+  rw [hpb] at hge hbal hini
+  rw [hf] at hbal
+  exact ⟨s1, s2, hm, hs, hb, h5, h_i, hge, hbal, hini, h0⟩
+
+/-- … made explicit for a payload that only lets the borrower contract fund the router with `x`: the
+    transaction succeeds only if `router balance + n + loan + x` covers the quote, the VAULT GAINS
+    EXACTLY ITS RETAINED FEES (protocol + flash-loan fee; nothing of the `n` attached coins), the
+    initiator's balance changes by exactly `router balance + loan + x − quote` — the `n` coins it
+    attached are back —, the router ends with nothing, the borrower contract paid `x`. -/
+theorem router_attached_returned_exact {s s' : St} {i n amount x : Nat} (hI : Inv s) (hi3 : i ≠ 3)
+    (h : step s (.attach i 0 n (.routerLoan i amount [.fund x])) = some s') :
+    payback s amount ≤ getN s.ab 5 + n + amount + x ∧
+    s'.bal + amount + fee s.fees.burn amount = s.bal + payback s amount ∧
+    getN s'.ab i + payback s amount = getN s.ab i + (getN s.ab 5 + amount + x) ∧
+    getN s'.ab 5 = 0 ∧ getN s'.ab 3 + x = getN s.ab 3 := by
+  obtain ⟨s1, hm, hs, hi, hI1, hb, hf, h5, h_i, hoth1⟩ := attached_router_start hI h
+  have h3 : getN s1.ab 3 = getN s.ab 3 := hoth1 3 (by omega) (by omega)
+  obtain ⟨_, _, t1, t2, t3, tp, tr, tcl, tat⟩ := router_loan_parts hs
+  -- the loan reaches the router
+  obtain ⟨ht1, hamt, _, hlen1⟩ := payOut_spec (s := { s1 with ctr := s1.ctr + 1 }) (a := 5) (n := amount)
+    hI1.abLen (by omega) tp
+  have e1ab : t1.ab = setN s1.ab 5 (getN s1.ab 5 + amount) := by rw [ht1]
+  have e1bal : t1.bal = s1.bal - amount := by rw [ht1]
+  have e1fees : t1.fees = s1.fees := by rw [ht1]
+  have hamt' : amount ≤ s1.bal := hamt
+  -- the borrower contract funds the router
+  have hq : rrun t1 (.fund x) = some t2 := by
+    cases hq : rrun t1 (.fund x) with
+    | none => rw [rruns_cons_none [] hq] at tr; cases tr
+    | some q => rw [rruns_cons_some [] hq, rruns_nil] at tr; rw [tr]
+  rw [rrun_fund] at hq
+  obtain ⟨hlen2, _, heq2, hx, hab2⟩ := move_spec hlen1 (by omega) (by omega) hq
+  have e2bal : t2.bal = t1.bal := by rw [heq2]
+  have e2fees : t2.fees = t1.fees := by rw [heq2]
+  have hlenA : (setN t1.ab 3 (getN t1.ab 3 - x)).length = 6 := by rw [setN_length]; exact hlen1
+  have g15 : getN t1.ab 5 = getN s1.ab 5 + amount := by
+    rw [e1ab]; exact getN_setN_same _ _ _ (by rw [hI1.abLen]; omega)
+  have g13 : getN t1.ab 3 = getN s1.ab 3 := by rw [e1ab]; exact getN_setN_ne _ _ _ _ (by omega)
+  have g1i : getN t1.ab i = getN s1.ab i := by rw [e1ab]; exact getN_setN_ne _ _ _ _ (by omega)
+  have g25 : getN t2.ab 5 = getN s1.ab 5 + amount + x := by
+    rw [hab2, getN_setN_same _ _ _ (by rw [hlenA]; omega), getN_setN_ne _ _ _ _ (by omega), g15]
+  have g23 : getN t2.ab 3 = getN s1.ab 3 - x := by
+    rw [hab2, getN_setN_ne _ _ _ _ (by omega), getN_setN_same _ _ _ (by rw [hlen1]; omega), g13]
+  have g2i : getN t2.ab i = getN s1.ab i := by
+    rw [hab2, getN_setN_ne _ _ _ _ (by omega), getN_setN_ne _ _ _ _ (by omega), g1i]
+  have hf2 : t2.fees = s.fees := by rw [e2fees, e1fees, hf]
+  have hpb : payback t2 amount = payback s amount := by unfold payback; rw [hf2]
+  -- CompleteLoan and after_trade
+  obtain ⟨hge, heq3, _, _, h50, hini, hoth⟩ := completeLoan_spec hlen2 (by omega) tcl
+  rw [hpb] at hge hini
+  have e3bal : t3.bal = t2.bal + payback s amount := by rw [heq3, hpb]
+  have e3fees : t3.fees = s.fees := by rw [heq3]; exact hf2
+  obtain ⟨hok, hs'⟩ := afterTrade_ok_of_some tat
+  have e_ab : s'.ab = t3.ab := by rw [hs']; rfl
+  have e_b' : s'.bal = t3.bal - fee t3.fees.burn amount := by rw [hs']; rfl
+  simp only [afterTradeOk, Bool.and_eq_true, decide_eq_true_eq] at hok
+  obtain ⟨⟨⟨⟨_, hneed⟩, _⟩, _⟩, _⟩ := hok
+  rw [e3fees] at hneed e_b'
+  have h33 : getN t3.ab 3 = getN t2.ab 3 := hoth 3 (by omega) (by omega)
+  have hx' : x ≤ getN s1.ab 3 := by rw [← g13]; exact hx
+  have hpbdef : payback s amount = amount + fee s.fees.prot amount + fee s.fees.flash amount + fee s.fees.burn amount := rfl
+  refine ⟨?_, ?_, ?_, ?_, ?_⟩
+  · rw [g25, h5] at hge; omega
+  · rw [e_b', e3bal, e2bal, e1bal, hb] at *; omega
+  · rw [e_ab, hini, g2i, g25, h5]; rw [g25, h5] at hge; omega
+  · rw [e_ab]; exact h50
+  · rw [e_ab, h33, g23, h3]; rw [h3] at hx'; omega
+
+/-- Coins of an UNRELATED denom attached to the router's `FlashLoan` do not take part in the loan at
+    all (it runs as without them) and are NOT returned: `CompleteLoan` forwards the loaned asset only,
+    so they stay on the router's balance (entry 5 of the unrelated denom grows by `n`, the sender's
+    falls by `n`) — like any other coins parked on the router. -/
+theorem router_foreign_coins_stay_in_router {s s' : St} {who sel n i amount : Nat} {payload : List RAct}
+    (hI : Inv s) (hj : s.jb.length = 8) (hsel : sel ≠ 0)
+    (h : step s (.attach who sel n (.routerLoan i amount payload)) = some s') :
+    (∃ s1, s1 = { s with jb := s1.jb } ∧ routerLoanFrom s1 i amount payload = some s') ∧
+    getN s'.jb 5 = getN s.jb 5 + n ∧ getN s'.jb who + n = getN s.jb who ∧ getN s'.jb 7 = getN s.jb 7 := by
+  obtain ⟨s1, ha, hs, hi, hI1, _, _, _, _⟩ := router_attached_is_routers hI h
+  obtain ⟨hs1, hn, hw, _⟩ := arrive_junk hsel ha
+  have hjb : s'.jb = s1.jb := (router_loan_spec hI1 (by omega) hs).jb
+  have e1 : s1.jb = lmove s.jb who 5 n := by rw [hs1]; rfl
+  refine ⟨⟨s1, by rw [hs1], hs⟩, ?_, ?_, ?_⟩
+  · rw [hjb, e1, lmove_dst _ _ _ _ (by rw [hj]; omega) (by omega)]
+  · rw [hjb, e1, lmove_src _ _ _ _ (by rw [hj]; omega) (by omega)]; omega
+  · rw [hjb, e1, lmove_other _ _ _ _ _ (by omega) (by omega)]
+
 /-! ### the vault router over several vaults: the chain of `NextLoan`s
 
   `VaultChain.chainGo c run I L s L` is the router borrowing from every vault of `L` (pairs
@@ -519,6 +691,82 @@ theorem chain_callbacks_guarded (c : VaultChain.Cfg) (s : VaultChain.St) (who I 
     VaultChain.apply c s (.xnext who I L p) = s ∧ VaultChain.apply c s (.xcomplete who I L) = s :=
   ⟨rfl, rfl, rfl, rfl⟩
 
+/-! #### coins attached to the router's / a vault's messages, several vaults
+
+`chain_failed_changes_nothing` / `chain_all_or_nothing` quantify over all operations, the ones carrying
+stray coins (`VaultChain.Op.attach`) included. -/
+
+/-- Stray coins go to the contract the message is sent to and nowhere else: a message with `n` coins of
+    asset `sel` attached by `who` runs exactly as the same message without coins from the state `s0`
+    after a plain transfer of the coins from `who` to the receiving contract (`dst` = 5 for the router's
+    `FlashLoan` / `NextLoan` / `CompleteLoan`, `6 + j` for vault `j`'s `CollectProtocolFees`: a donation
+    to that vault); no fee ledger or loan counter is touched by their arrival. -/
+theorem chain_stray_coins_go_to_receiver {c : VaultChain.Cfg} {s s' : VaultChain.St} {who sel n : Nat}
+    {op : VaultChain.Op} (h : VaultChain.step c s (.attach who sel n op) = some s') :
+    ∃ dst s0, op.recv = some dst ∧ VaultChain.move c s sel who dst n = some s0 ∧
+      VaultChain.step c s0 op = some s' ∧
+      s0.bal sel dst = s.bal sel dst + n ∧ s0.bal sel who + n = s.bal sel who ∧
+      (∀ y, y ≠ dst → y ≠ who → s0.bal sel y = s.bal sel y) ∧ (∀ x y, x ≠ sel → s0.bal x y = s.bal x y) ∧
+      s0.pend = s.pend ∧ s0.allTime = s.allTime ∧ s0.burned = s.burned ∧ s0.ctr = s.ctr := by
+  obtain ⟨dst, s0, hr, hm, hw, _, _, _, hd, hs⟩ := VaultChain.attach_parts h
+  have M := VaultChain.move_spec hm
+  have hne : who ≠ dst := by
+    cases op with
+    | rloan _ _ _ => simp only [VaultChain.Op.recv, Option.some.injEq] at hr; omega
+    | rfund _ _ _ => simp [VaultChain.Op.recv] at hr
+    | collect j => simp only [VaultChain.Op.recv, Option.some.injEq] at hr; omega
+    | xnext _ _ _ _ => simp only [VaultChain.Op.recv, Option.some.injEq] at hr; omega
+    | xcomplete _ _ _ => simp only [VaultChain.Op.recv, Option.some.injEq] at hr; omega
+    | attach _ _ _ op' =>
+      -- whatever the inner message is, its receiver is the router or a vault: an account ≥ 5
+      have : ∀ o : VaultChain.Op, ∀ d, o.recv = some d → 5 ≤ d := by
+        intro o
+        induction o with
+        | rloan _ _ _ => intro d hd; simp only [VaultChain.Op.recv, Option.some.injEq] at hd; omega
+        | rfund _ _ _ => intro d hd; simp [VaultChain.Op.recv] at hd
+        | collect j => intro d hd; simp only [VaultChain.Op.recv, Option.some.injEq] at hd; omega
+        | xnext _ _ _ _ => intro d hd; simp only [VaultChain.Op.recv, Option.some.injEq] at hd; omega
+        | xcomplete _ _ _ => intro d hd; simp only [VaultChain.Op.recv, Option.some.injEq] at hd; omega
+        | attach _ _ _ o ih => intro d hd; exact ih d (by simpa only [VaultChain.Op.recv] using hd)
+      have := this _ _ hr
+      omega
+  have h1 := M.dstBal hne
+  have h2 := M.srcBal hne
+  have h3 := M.funded
+  exact ⟨dst, s0, hr, hm, hs, h1, by omega, fun y g1 g2 => M.otherAcct y g2 g1,
+    fun x y hx => M.otherAsset x y hx, M.pend, M.allTime, M.burned, M.ctr⟩
+
+/-- **Coins attached to the router's `FlashLoan` are never left in a vault, and of the borrowed asset
+    never in the router**: they are the router's when the chain starts (`s0`); with `s2` the state when
+    the payload has finished, the vault of the borrowed asset receives exactly its quote, the router ends
+    with nothing of the borrowed asset and the initiator (= the sender) receives the router's WHOLE
+    remaining balance of it — attached coins of that denom included. Attached coins of ANY OTHER asset
+    (another vault's asset, the denom without a vault) do not move after the payload: they stay where
+    the payload left them, i.e. with the router unless the payload sends them on. -/
+theorem chain_attached_coins_return {c : VaultChain.Cfg} {s s' : VaultChain.St} {who sel n : Nat}
+    {e : Nat × Nat} {p : List VaultChain.RAct}
+    (h : VaultChain.step c s (.attach who sel n (.rloan who [e] p)) = some s') :
+    ∃ s0 s1 s2 : VaultChain.St, VaultChain.move c s sel who 5 n = some s0 ∧
+      s0.bal sel 5 = s.bal sel 5 + n ∧ s0.bal sel who + n = s.bal sel who ∧
+      (∀ y, y ≠ 5 → y ≠ who → s0.bal sel y = s.bal sel y) ∧ (∀ x y, x ≠ sel → s0.bal x y = s.bal x y) ∧
+      VaultChain.chainGo c (fun t => VaultChain.rruns c t p) who [e] s0 [e] = some s' ∧
+      VaultChain.lends c s0 [e] = some s1 ∧ VaultChain.rruns c s1 p = some s2 ∧
+      s1.bal e.1 5 = s0.bal e.1 5 + e.2 ∧
+      VaultChain.payback c e.1 e.2 ≤ s2.bal e.1 5 ∧
+      s'.bal e.1 5 = 0 ∧
+      s'.bal e.1 who = s2.bal e.1 who + (s2.bal e.1 5 - VaultChain.payback c e.1 e.2) ∧
+      s'.bal e.1 (6 + e.1) + e.2 * (c.fees e.1).burn / E18 = s2.bal e.1 (6 + e.1) + VaultChain.payback c e.1 e.2 ∧
+      (∀ x, x ≠ e.1 → ∀ y, s'.bal x y = s2.bal x y) := by
+  obtain ⟨dst, s0, hr, hm, hs, h1, h2, h3, h4, _⟩ := chain_stray_coins_go_to_receiver h
+  have hd : dst = 5 := by simp only [VaultChain.Op.recv, Option.some.injEq] at hr; omega
+  subst hd
+  obtain ⟨_, _, _, _, hw, _, _, _, _, _⟩ := VaultChain.attach_parts h
+  rw [chain_rloan_single c s0 who e p hw] at hs
+  obtain ⟨s1, s2, hl, hrun, S⟩ := VaultChain.chain_spec (by omega) hs
+  have he : e ∈ [e] := List.mem_singleton.mpr rfl
+  refine ⟨s0, s1, s2, hm, h1, h2, h3, h4, hs, hl, hrun, S.lentRouter e he, S.covered e he, S.router e he,
+    S.initiator e he, S.vault e he, fun x hx y => S.otherAsset x (by simpa using hx) y⟩
+
 /-- non-vacuity + the exact numbers: loan 500 000 at fees 1 % / 0.3 % / 0.1 %: payback 507 000;
     repaying 507 000 succeeds, 506 999 reverts, a nested loan reverts, a deposit reverts. -/
 example :
@@ -550,6 +798,33 @@ example :
       ∧ (routerLoanFrom s 1 500000 [.adv [.collect, .pay 5], .fund 7000, .out 2 100]).isSome = true
       ∧ routerLoanFrom s 1 500000 [.fund 7000, .complete 0 100] = none
       ∧ step s (.nextLoanBy 1 0 [.out 1 300]) = none := by
+  decide
+
+/-- non-vacuity + the exact numbers, coins attached: the state of the previous example (router holding
+    300 stray units). User 1 attaches 77 units of the asset to the same router loan (payload funds
+    8 000): vault 1 006 500 as without them, router 0, user 1 ends with 5 001 300 exactly as without
+    them (−77 + 1 377 forwarded) — the coins are back. Attaching 55 units of the unrelated denom leaves
+    them on the router (entry 5 of `jb`) and changes nothing else. The borrower contract attaching 9
+    units to its own direct `FlashLoan` of 1 000 (payback 1 014) donates them: vault balance + 9 + 13.
+    With the payload funding only 6 623 the 77 attached units complete the quote (300 + 77 + 500 000 +
+    6 623 = 507 000); 76 do not. On a cw20 vault a coin of the asset's denom cannot be attached at all. -/
+example :
+    let s0 := Vault.init 0 ⟨10000000000000000, 3000000000000000, 1000000000000000⟩ [5000000, 5000000, 300, 100000, 0, 0]
+    let s := reach s0 [.deposit 0 1000000 1000000, .fundRouter 2 300]
+    let a := Vault.apply s (.attach 1 0 77 (.routerLoan 1 500000 [.fund 8000]))
+    let b := Vault.apply s (.attach 1 1 55 (.routerLoan 1 500000 [.fund 8000]))
+    let d := Vault.apply s (.attach 3 0 9 (.loan 1000 [.pay 1014]))
+    (a.bal, getN a.ab 5, getN a.ab 1, getN a.ab 3) = (1006500, 0, 5001300, 92000) ∧ a.jb = s.jb
+      ∧ (b.bal, getN b.ab 5, getN b.ab 1, getN b.jb 5, getN b.jb 7) = (1006500, 0, 5001300, 55, 0)
+      ∧ getN b.jb 1 + 55 = getN s.jb 1
+      ∧ (d.bal, getN d.ab 3, d.pend, d.burned) = (1000022, 99977, 10, 1)
+      ∧ (step s (.attach 1 0 77 (.routerLoan 1 500000 [.fund 6623]))).isSome = true
+      ∧ step s (.attach 1 0 76 (.routerLoan 1 500000 [.fund 6623])) = none
+      ∧ step s (.attach 1 0 0 (.routerLoan 1 500000 [.fund 8000])) = none
+      ∧ step { s with kind := 1 } (.attach 1 0 77 (.routerLoan 1 500000 [.fund 8000])) = none
+      ∧ step s (.attach 1 0 5 (.deposit 1 100 95)) = none
+      ∧ (step s (.attach 1 1 5 (.deposit 1 100 100))).isSome = true
+      ∧ step s (.attach 1 1 5 (.nextLoanBy 1 0 [])) = none := by
   decide
 
 /-- non-vacuity + the exact numbers, three vaults (0: native, fees 1 % / 0.3 % / 0.1 %; 1: cw20, no fees;
